@@ -44,6 +44,8 @@ type ProcSpec struct {
 	Barrier string              `json:"barrier,omitempty"`
 	NoRead  bool                `json:"noread,omitempty"` // body does not read its inputs
 	WriteIdiom bool             `json:"writeidiom,omitempty"`
+	JoinSep    string           `json:"joinsep,omitempty"` // kind "joiner": {i:x|join:SEP}
+	JoinMod    string           `json:"joinmod,omitempty"` // kind "joiner": extra modifier (basename, %.txt)
 	CmdSuffix  string           `json:"cmdsuffix,omitempty"`
 }
 
@@ -234,6 +236,14 @@ func (w *WSpec) build(env *Env) *built {
 			for port, vals := range ps.FromStr {
 				p.InParam(port).FromStr(vals...)
 			}
+			b.procs[ps.Name] = p
+		case "joiner":
+			ph := "{i:x|join:" + ps.JoinSep
+			if ps.JoinMod != "" {
+				ph += "|" + ps.JoinMod
+			}
+			p := wf.NewProc(ps.Name, "vjoin {o:out} ["+ph+"}]")
+			p.SetOut("out", "joined.txt")
 			b.procs[ps.Name] = p
 		case "recorder":
 			b.procs[ps.Name] = newRecorder(wf, ps.Name)
@@ -435,6 +445,27 @@ func (w *WSpec) referencePre(pre map[string]string) *Ref {
 			case "tagger":
 				r.Emit[p.Name+".out"] = inStream["in"]
 				r.OrderOK[p.Name+".out"] = orderOK
+			case "joiner":
+				members := []string{}
+				for _, e := range w.Edges {
+					if e.To == p.Name {
+						// the sub-stream carrier comes from a "substream" process: its members are that process' input
+						for _, e2 := range w.Edges {
+							if e2.To == e.From {
+								members = append(members, r.Emit[e2.From+"."+e2.FromPort]...)
+							}
+						}
+					}
+				}
+				content := ""
+				for _, m := range members {
+					content += r.Files[m] + "\n"
+				}
+				t := &RefTask{Proc: p.Name, Key: taskKey(p.Name, nil, nil), Ins: map[string]string{}, Params: map[string]string{}, Outs: map[string]string{"out": "joined.txt"}}
+				r.Files["joined.txt"] = content
+				r.Tasks = append(r.Tasks, t)
+				r.ByKey[t.Key] = t
+				r.Emit[p.Name+".members"] = members
 			case "direct":
 				t := &RefTask{Proc: p.Name, Key: taskKey(p.Name, nil, nil), Ins: map[string]string{}, Params: map[string]string{}, Outs: map[string]string{}}
 				r.Tasks = append(r.Tasks, t)
